@@ -32,8 +32,9 @@ Lemma prog_alloc : prog bt_vec_alloc_ops = [OSnapLen; OReserveIfFull 1; OWrite B
 Proof. reflexivity. Qed.
 Lemma prog_init : exists dv mn, prog bt_init_ops = [OClear; OReserveInit dv mn; OWrite BZero 0 VEqualC] /\ 1 <= mn.
 Proof. eexists _, _. split; [reflexivity|]. cbv. lia. Qed.
-Lemma prog_eq_prefix : prog bt_eq_prefix_ops = [OReserve 2; OPop false; OCheckLast].
-Proof. reflexivity. Qed.
+(* reserve(k) with any k >= 2 will do *)
+Lemma prog_eq_prefix : exists k, prog bt_eq_prefix_ops = [OReserve k; OPop false; OCheckLast] /\ 2 <= k.
+Proof. eexists. split; [reflexivity|]. cbv. lia. Qed.
 Lemma prog_eq_empties : prog bt_eq_empties_ops = [OSetParent; OWrite BPar 1 (VStash 0); OSetLen BPar 2].
 Proof. reflexivity. Qed.
 Lemma prog_eq_mixed : prog bt_eq_mixed_ops =
@@ -184,8 +185,10 @@ Qed.
 
 Theorem eq_arm_c_ref : forall pol d par t sp, omap fst (eq_arm_c pol d par t sp) = eq_arm_spec d par t.
 Proof.
-  intros. unfold eq_arm_c, eq_arm_gen, eq_arm_spec. rewrite prog_eq_prefix, prog_eq_empties, prog_eq_mixed. vsimp.
-  destruct (v_reserve_room pol 2 t sp) as (sp1 & E1 & H1). rewrite E1.
+  intros. unfold eq_arm_c, eq_arm_gen, eq_arm_spec. destruct prog_eq_prefix as (k & -> & Hk).
+  rewrite prog_eq_empties, prog_eq_mixed. vsimp.
+  destruct (v_reserve_room pol k t sp) as (sp1 & E1 & H1). rewrite E1. assert (H1' : 2 <= length sp1) by lia. clear H1.
+  rename H1' into H1.
   unfold v_pop. cbn [fst snd].
   destruct (pop t) as [[t1 last]|]; [|reflexivity]. vsimp.
   destruct (is_array_or_end last); [reflexivity|]. vsimp.
